@@ -1,10 +1,10 @@
-use std::sync::RwLock;
+use std::sync::{Arc, RwLock};
 
 use lazy_static::*;
 use rayon::*;
 
 lazy_static! {
-    static ref GLOBAL_POOL: RwLock<Option<(usize, ThreadPool)>> = RwLock::new(None);
+    static ref GLOBAL_POOL: RwLock<Option<(usize, Arc<ThreadPool>)>> = RwLock::new(None);
 }
 
 fn get_current_num_threads() -> Option<usize> {
@@ -21,21 +21,27 @@ where
     OP: FnOnce() -> R + Send,
     R: Send,
 {
-    GLOBAL_POOL
+    // Clone the pool handle and release the lock before running `op`: a caller that is
+    // itself a worker of another pool may pick up a sibling task while it waits in
+    // `install`, and that task may need the write lock.
+    let pool = GLOBAL_POOL
         .read()
         .unwrap()
         .as_ref()
-        .map(|(_, tp)| tp.install(op))
-        .unwrap()
+        .map(|(_, tp)| Arc::clone(tp))
+        .unwrap();
+    pool.install(op)
 }
 
 fn set_num_threads(num_threads: usize) {
     *GLOBAL_POOL.write().unwrap() = Some((
         num_threads,
-        ThreadPoolBuilder::new()
-            .num_threads(num_threads)
-            .build()
-            .unwrap(),
+        Arc::new(
+            ThreadPoolBuilder::new()
+                .num_threads(num_threads)
+                .build()
+                .unwrap(),
+        ),
     ));
 }
 
